@@ -317,8 +317,8 @@ class LocalShare:
     def gc(self, pruneUsed, pruneUnused, dryRun=False, progress=lambda x: None, newPkg=None):
         if (self.__quota is None) and not pruneUnused:
             return None
-        if not os.path.isdir(self.__path):
-            return 0
+        if not os.path.isfile(os.path.join(self.__path, "repo.json")):
+            return 0 # nothing was installed yet
 
         # Create a temporary attic directory. All garbage collected packages
         # are moved there to delete them without holding any locks.
